@@ -491,9 +491,14 @@ pub fn gen_op(rng: &mut Rng, spec: &TreeSpec) -> Op {
             path: create_path(rng, spec),
             target: lookup_path(rng, spec),
         },
-        61..=66 => Op::CreateFile {
-            path: create_path(rng, spec),
-            flags: {
+        61..=66 => {
+            // (a final `..` behind a spelling of the root, with O_PATH: the open that would hand out the root's parent)
+            let dots = rng.chance(1, 5);
+            let path = if dots { root_dots_path(rng, spec) } else { create_path(rng, spec) };
+            let opath = if dots && rng.chance(1, 2) { libc::O_PATH } else { 0 };
+            Op::CreateFile {
+            path,
+            flags: opath | {
                 let mut fl = *rng.pick(&[libc::O_RDONLY, libc::O_WRONLY, libc::O_RDWR]);
                 if rng.chance(1, 3) {
                     fl |= libc::O_EXCL;
@@ -512,7 +517,7 @@ pub fn gen_op(rng: &mut Rng, spec: &TreeSpec) -> Op {
                 fl | exotic_open_flags(rng)
             },
             mode: *rng.pick(&[0o644, 0o600, 0o755]),
-        },
+        }},
         67..=78 => Op::MkdirAll {
             path: mkdir_all_path(rng, spec),
             // (modes without owner write/search included: every created component gets the requested mode, not only the last)
